@@ -9,8 +9,12 @@ import (
 	"strings"
 	"testing"
 
+	tapolicy "github.com/containers/nri-plugins/cmd/plugins/topology-aware/policy"
+	"github.com/containers/nri-plugins/pkg/utils/cpuset"
 	"github.com/containers/nri-plugins/pkg/verif/mc"
 )
+
+type VerifPoolT = tapolicy.VerifPool
 
 type oracleFn func(x *exec, v *viols, pre, post *snap, rp *reply)
 
@@ -343,4 +347,225 @@ func TestVerifC19Balloons(t *testing.T) {
 		}
 	}
 	w.Res.Outcomes = int64(len(outcomes))
+}
+
+// TestVerifC16Pools: pool-tree well-formedness for every machine x available/reserved configuration the policy accepts.
+func TestVerifC16Pools(t *testing.T) {
+	w := mc.NewWorker(t, "C16")
+	defer w.Finish()
+	w.Replayer = nil
+	cases := c16PoolCases(w.Thorough())
+	replay := ""
+	if w.ReplayV != nil {
+		replay = w.ReplayV.Scenario
+	}
+	accepted := 0
+	for i, s := range cases {
+		if replay != "" {
+			if s.name != replay {
+				continue
+			}
+		} else if !w.Mine(i) {
+			continue
+		}
+		w.Res.Evaluations++
+		var x *exec
+		var err error
+		pan, msg, where := mc.Guard(func() { x, err = newExec(s, scratchDir()) })
+		if pan {
+			w.Report(mc.Violation{Property: "C14", Oracle: "panic", Signature: "panic@" + where + ":policy-start", Scenario: s.name, Detail: msg})
+			continue
+		}
+		if err != nil {
+			w.Count("configurations_refused", 1)
+			continue // only configurations the policy accepts are judged
+		}
+		accepted++
+		post := x.snapshot()
+		for _, v := range c16JudgeTree(s, x, post) {
+			w.Report(v)
+		}
+		if len(s.machine.Extras) > 0 || len(s.machine.Isolated) > 0 || s.machine.NodeMemKB != nil || len(post.TA.Pools) > 3 {
+			w.Res.Nontrivial++
+		}
+		if i%61 == 0 {
+			names := []string{}
+			for _, p := range post.TA.Pools {
+				names = append(names, fmt.Sprintf("%s<-%s cpus=%s mems=%s", p.Name, p.Parent, p.CPUs, p.Mems))
+			}
+			w.Sample(map[string]any{"machine": s.machine.Name, "config": s.cfgs[0].label, "pools": names})
+		}
+	}
+	w.Count("configurations_accepted", int64(accepted))
+}
+
+func c16JudgeTree(s *scenario, x *exec, post *snap) []mc.Violation {
+	v := &viols{prop: "C16", scn: s.name, trace: []string{fmt.Sprintf("machine %+v config %s", *s.machine, s.cfgs[0].label)}}
+	m := s.machine.Model()
+	pools := post.TA.Pools
+	byName := map[string]int{}
+	for i, p := range pools {
+		byName[p.Name] = i
+	}
+	zone := map[string]zoneSnap{}
+	for _, z := range post.Zones {
+		zone[z.Name] = z
+	}
+	// --- single tree
+	roots := []string{}
+	for _, p := range pools {
+		if p.Parent == "" {
+			roots = append(roots, p.Name)
+		} else if _, ok := byName[p.Parent]; !ok {
+			v.add("parent-missing", "tree:parent-missing", "pool %s has parent %q which is not a pool", p.Name, p.Parent)
+		}
+		if z, ok := zone[p.Name]; !ok || z.Parent != p.Parent {
+			v.add("zone-parent", "tree:zone-parent", "pool %s: zone parent %q differs from pool parent %q", p.Name, z.Parent, p.Parent)
+		}
+	}
+	if len(roots) != 1 {
+		v.add("single-root", "tree:single-root", "pools with no parent: %v", roots)
+		return v.out
+	}
+	root := pools[byName[roots[0]]]
+	for _, p := range pools {
+		seen := map[string]bool{}
+		for n := p.Name; n != ""; n = pools[byName[n]].Parent {
+			if seen[n] {
+				v.add("cycle", "tree:cycle", "cycle through pool %s", n)
+				return v.out
+			}
+			seen[n] = true
+		}
+	}
+	// --- virtual root iff several sockets
+	sockets := map[int]bool{}
+	for _, c := range m.CPUs {
+		if c.Online {
+			sockets[c.Pkg] = true
+		}
+	}
+	if (root.Kind == "virtual node") != (len(sockets) > 1) {
+		v.add("virtual-root", "tree:virtual-root", "root pool %s is of kind %q on a machine with %d sockets", root.Name, root.Kind, len(sockets))
+	}
+	kindRank := map[string]int{"virtual node": 0, "socket": 1, "die": 2, "numa node": 3}
+	avail := x.availableCPUs()
+	for _, p := range pools {
+		pc := parseSet(p.CPUs)
+		iso, rsv, shr := parseSet(p.TotalIsolated), parseSet(p.TotalReserved), parseSet(p.TotalSharable)
+		if !iso.Intersection(rsv).IsEmpty() || !iso.Intersection(shr).IsEmpty() || !rsv.Intersection(shr).IsEmpty() {
+			v.add("cpu-classes-overlap", "pool:cpu-classes-overlap", "pool %s: isolated %s, reserved %s, sharable %s are not disjoint", p.Name, iso, rsv, shr)
+		}
+		if z := zone[p.Name]; z.Attr["shared cpuset"] != p.FreeSharable {
+			v.add("zone-shared", "pool:zone-shared", "pool %s: zone shared cpuset %q, pool %q", p.Name, z.Attr["shared cpuset"], p.FreeSharable)
+		}
+		if p.Parent != "" {
+			par := pools[byName[p.Parent]]
+			if !pc.IsSubsetOf(parseSet(par.CPUs)) {
+				v.add("child-cpus-not-in-parent", "tree:child-cpus-not-in-parent", "pool %s cpus %s are not contained in parent %s cpus %s", p.Name, pc, par.Name, par.CPUs)
+			}
+			if kindRank[p.Kind] <= kindRank[par.Kind] {
+				v.add("level-order", "tree:level-order", "pool %s (%s) is a child of %s (%s)", p.Name, p.Kind, par.Name, par.Kind)
+			}
+			if !parseSet(p.Mems).IsSubsetOf(parseSet(par.Mems)) {
+				v.add("child-mems-not-in-parent", "tree:child-mems-not-in-parent", "pool %s memory nodes %s are not a subset of parent %s memory nodes %s", p.Name, p.Mems, par.Name, par.Mems)
+			}
+		}
+		// siblings disjoint, redundant levels omitted
+		var kids []VerifPoolT
+		for _, c := range p.Children {
+			kids = append(kids, pools[byName[c]])
+		}
+		for i, a := range kids {
+			for _, b := range kids[i+1:] {
+				if common := parseSet(a.CPUs).Intersection(parseSet(b.CPUs)); !common.IsEmpty() {
+					v.add("siblings-overlap", "tree:siblings-overlap", "sibling pools %s and %s share CPUs %s", a.Name, b.Name, common)
+				}
+			}
+		}
+		if len(kids) == 1 && kids[0].CPUs == p.CPUs && kids[0].Mems == p.Mems {
+			v.add("redundant-level", "tree:redundant-level", "pool %s has the single child %s with identical resources", p.Name, kids[0].Name)
+		}
+		if z := zone[p.Name]; z.Attr["memory set"] != p.Mems {
+			v.add("zone-memset", "pool:zone-memset", "pool %s: zone memory set %q, pool %q", p.Name, z.Attr["memory set"], p.Mems)
+		}
+	}
+	if rc := parseSet(root.CPUs); !c08eq(rc, avail) {
+		v.add("root-cpus", "tree:root-cpus", "root pool %s holds CPUs %s, the available CPUs are %s", root.Name, rc, avail)
+	}
+	// --- memory
+	withMem := []int{}
+	for _, n := range m.Nodes {
+		if n.MemKB > 0 {
+			withMem = append(withMem, n.ID)
+		}
+	}
+	if got := parseSet(root.Mems); !c08eq(got, cpuset.New(withMem...)) {
+		v.add("root-mems", "mem:root-mems", "root pool %s has memory nodes %s, nodes with memory are %v", root.Name, got, withMem)
+	}
+	// topological CPU set of a pool, from its name
+	topo := func(p VerifPoolT) cpuset.CPUSet {
+		ids := []int{}
+		for _, c := range m.CPUs {
+			if !c.Online {
+				continue
+			}
+			var a, b int
+			switch {
+			case p.Kind == "virtual node":
+				ids = append(ids, c.ID)
+			case p.Kind == "socket":
+				fmt.Sscanf(p.Name, "socket #%d", &a)
+				if c.Pkg == a {
+					ids = append(ids, c.ID)
+				}
+			case p.Kind == "die":
+				fmt.Sscanf(p.Name, "die #%d/%d", &a, &b)
+				if c.Pkg == a && c.Die == b {
+					ids = append(ids, c.ID)
+				}
+			case p.Kind == "numa node":
+				fmt.Sscanf(p.Name, "NUMA node #%d", &a)
+				if c.Node == a {
+					ids = append(ids, c.ID)
+				}
+			}
+		}
+		return cpuset.New(ids...)
+	}
+	for _, e := range m.Nodes {
+		if !e.Extra || e.MemKB == 0 {
+			continue
+		}
+		// closest CPU-bearing DRAM nodes
+		best := -1
+		var closest []int
+		for _, n := range m.Nodes {
+			if n.Extra || len(n.CPUs) == 0 {
+				continue
+			}
+			d := e.Distance[n.ID]
+			if best < 0 || d < best {
+				best, closest = d, []int{n.ID}
+			} else if d == best {
+				closest = append(closest, n.ID)
+			}
+		}
+		for _, p := range pools {
+			if p.Parent == "" {
+				continue
+			}
+			want := false
+			tc := topo(p)
+			for _, n := range closest {
+				if !cpuset.New(m.Nodes[n].CPUs...).Intersection(tc).IsEmpty() {
+					want = true
+				}
+			}
+			if has := parseSet(p.Mems).Contains(e.ID); has != want {
+				v.add("special-memory-attachment", "mem:special-memory-attachment", "CPU-less memory node %d (closest CPU-bearing DRAM nodes %v): pool %s (cpus %s) memory set %s, expected attached=%v", e.ID, closest, p.Name, tc, p.Mems, want)
+			}
+		}
+	}
+	return v.out
 }
